@@ -16,11 +16,17 @@ file, and random texts of 1..400 characters over small alphabets, as constants
 and as the text literals of formulas), lock-step post-load histories of the
 original and the loaded model (same process, fresh process, fresh thread;
 cycles on/off; yml/json/pkl), byte-identical re-save, save-load-save, and
-survival of the metadata.  Every part also runs on models which need a plugin
-module (harness/plugin_c03.py: VID(x) = x around formulas which are members
-of ranges and readers of ranges): the module is named when the model is
-compiled and when it is loaded, as Reload.tla says (the function table is the
-same on both sides of the trip).
+survival of the metadata.  Saving the LOADED model (SaveLoaded / ResaveReproduces
+of Persist.tla) is executed in the protocol part -- the atoms of Vals bound to
+numbers of the number family on every other history -- and in the fidelity
+part for every value of the pool and of the number family (integers, decimals,
+floats whose shortest text is in exponent notation with 1..17 digits, the
+edges of the float range), to every file type: the second files hold the
+content of the first and load to the same values and extra_data.  Every part
+also runs on models which need a plugin module (harness/plugin_c03.py:
+VID(x) = x around formulas which are members of ranges and readers of ranges):
+the module is named when the model is compiled and when it is loaded, as
+Reload.tla says (the function table is the same on both sides of the trip).
 """
 import json
 import math
@@ -68,13 +74,67 @@ def same(a, b):
     return xl.same_value(a, b)
 
 
+# Numbers of every class a text file writer (and the reader of its text) treats
+# differently.  The shortest text of a float is in exponent notation when
+# abs >= 1e16 or abs < 1e-4, and has up to 17 significant digits.
+NUMBER_EDGES = [5e-324, 2.2250738585072014e-308, 1.7976931348623157e+308, 2.0 ** 63, 2.0 ** -40,
+                2.0 ** 100, 1 / 3e10, (0.1 + 0.2) * 1e-6, 1e16, 1e15 + 0.5, 1e-4, 1e-5, 1e23,
+                9007199254740993, 10 ** 20, -7]
+
+
+def number_family(rnd, n):
+    """the edges, and n floats: 1..17 significant digits x a decade below 1e-4,
+    above 1e16 or in between x sign"""
+    out = list(NUMBER_EDGES)
+    for i in range(n):
+        digits = 1 + i % 17
+        mant = rnd.randint(10 ** (digits - 1), 10 ** digits - 1)
+        exp = (rnd.randint(-320, -5), rnd.randint(16, 307), rnd.randint(-4, 15))[(i // 17) % 3]
+        x = float(f'{mant}e{exp - digits + 1}')
+        out.append(-x if rnd.random() < 0.3 else x)
+    return out
+
+
+def is_number(x):
+    return isinstance(x, (int, float)) and not isinstance(x, bool)
+
+
+def canon(x):
+    """what a text file holds, comparable: floats by their digits, mappings in file order"""
+    if isinstance(x, bool) or x is None:
+        return x
+    if isinstance(x, float):
+        return ('F', repr(float(x)))
+    if isinstance(x, int):
+        return ('I', int(x))
+    if isinstance(x, str):
+        return ('S', str(x))
+    if isinstance(x, dict):
+        return [(canon(k), canon(v)) for k, v in x.items()]
+    if isinstance(x, (list, tuple)):
+        return [canon(e) for e in x]
+    return ('?', repr(x))
+
+
+def content_diff(path1, path2):
+    """the top-level keys in which two text files differ (cells, code, constants,
+    metadata, extra_data; both read with the reader from_file uses)"""
+    from ruamel.yaml import YAML
+    with open(path1) as f1, open(path2) as f2:
+        d1, d2 = YAML().load(f1), YAML().load(f2)
+    if [canon(k) for k in d1] != [canon(k) for k in d2]:
+        return [f'keys {list(d1)} vs {list(d2)}']
+    return [f'{k}: {str(d1[k])[:100]} vs {str(d2[k])[:100]}'
+            for k in sorted(d1, key=lambda k: k != 'cell_map') if canon(d1[k]) != canon(d2[k])]
+
+
 # ---------------------------------------------------------------- part A
 def protocol_job(arg):
-    text_ext, cycles, seed, max_leaves, plug_every = arg
+    text_ext, cycles, seed, max_leaves, plug_every, (shard, shards) = arg
     from pycel import ExcelCompiler
     out = dict(part='protocol', ext=text_ext, cycles=bool(cycles),
                tlc=[], violations=[], known=[], notes=[], cases=0, histories=0, loads=0,
-               stale_seen=0, plugin_histories=0, sample=None)
+               stale_seen=0, plugin_histories=0, resaves=0, bound_histories=0, sample=None)
     preds = {}
     for dev in ('TRUE', 'FALSE'):
         d = tlc.new_scratch('pers')
@@ -83,16 +143,18 @@ def protocol_job(arg):
             f.write('CONSTANTS\n Inputs <- MCInputs\n Vals <- MCVals\n Init0 <- MCInit0\n'
                     f' TextIsYml = {"TRUE" if text_ext == "yml" else "FALSE"}\n'
                     f' DEV_StalePickle = {dev}\nSPECIFICATION Spec\nINVARIANT Export\n'
-                    'CONSTRAINT Depth\n'
+                    'CONSTRAINT Depth\nINVARIANT ResaveReproduces\n'
                     + ('INVARIANT LoadedEquiv\nPROPERTY SaveIdempotent\n' if dev == 'FALSE' else ''))
         res = tlc.run('MC_Persist', cfg, workers=1, timeout=900)
-        if dev == 'FALSE' and not res.ok:
-            raise tlc.MachineryFailure(f'Persist.tla (repaired rule) violates {res.violated}')
+        if not res.ok:
+            raise tlc.MachineryFailure(f'Persist.tla (DEV_StalePickle={dev}) violates {res.violated}')
         recs = [r for r in res.json if len(r['hist']) <= 5]      # within CONSTRAINT Depth
         if len(recs) != res.distinct:
             raise tlc.MachineryFailure(f'Persist export incomplete: {len(recs)} vs {res.distinct}')
-        out['tlc'].append(dict(run=f'Persist DEV_StalePickle={dev}', distinct=res.distinct,
-                               generated=res.generated, depth=res.depth, wall_s=round(res.wall, 2)))
+        if shard == 0:
+            out['tlc'].append(dict(run=f'Persist DEV_StalePickle={dev}', distinct=res.distinct,
+                                   generated=res.generated, depth=res.depth,
+                                   wall_s=round(res.wall, 2)))
         for rec in recs:
             preds.setdefault(json.dumps(rec['hist'], sort_keys=True), {})[dev] = rec
     # maximal histories only (every prefix is checked on the way)
@@ -102,10 +164,16 @@ def protocol_job(arg):
     leaves = [h for h in hists if json.dumps(h, sort_keys=True) not in prefixes and h]
     rnd = random.Random(seed)
     rnd.shuffle(leaves)
-    # histories that end by loading a file observe the most: keep them first
-    leaves.sort(key=lambda h: h[-1]['op'] != 'from_file')
+    # histories that end by loading a file, or by saving the loaded model, observe
+    # the most: keep them first
+    leaves.sort(key=lambda h: h[-1]['op'] not in ('from_file', 'save_loaded'))
     out['leaves_total'] = len(leaves)
-    leaves = leaves[:max_leaves]
+    # (thorough: the histories are shared out between several jobs)
+    leaves = leaves[:max_leaves][shard::shards]
+    if not any(s_['op'] == 'save_loaded' for h in leaves for s_ in h):
+        raise tlc.MachineryFailure('vacuous: no history saves a loaded model')
+    numbers = number_family(random.Random(seed * 31 + 7), 51)
+    rnd = random.Random(seed * 1009 + shard)       # the bindings of this job's histories
     workdir = tlc.new_scratch('files')
     cells0 = {'A1': 1, 'B1': '=A1+1', 'C1': '=SUM(A1:B1)', 'D1': '=C1&"x"'}
     # the same workbook for a model with a plugin module: B1, a member of the
@@ -113,8 +181,15 @@ def protocol_job(arg):
     cells1 = dict(cells0, B1=PLUG.wrap(cells0['B1']), D1=PLUG.wrap(cells0['D1']))
     for hi, hist in enumerate(leaves):
         plug = bool(plug_every) and hi % plug_every == plug_every - 1
-        cells = cells1 if plug else cells0
+        # the atoms 1, 2 of Vals: the numbers 1, 2, or (every other history) two
+        # numbers of the number family
+        bind = {1: 1, 2: 2}
+        if hi % 2:
+            bind = dict(zip((1, 2), rnd.sample(numbers, 2)))
+            out['bound_histories'] += 1
+        cells = dict(cells1 if plug else cells0, A1=bind[1])
         out['plugin_histories'] += plug
+        loaded = loaded_obs = loaded_meta = None
         base = os.path.join(workdir, f'h{hi}_model')
         m = xl.compile_wb(cells, cycles=cycles, plugins=plugins_of(plug))
         for c in 'BCD':
@@ -124,12 +199,13 @@ def protocol_job(arg):
         for step in hist:
             done.append(step)
             pred = preds[json.dumps(done, sort_keys=True)]
-            case = dict(text_ext=text_ext, cycles=bool(cycles), cells=cells, history=list(done),
+            case = dict(text_ext=text_ext, cycles=bool(cycles), cells=cells,
+                        history=[dict(s_, v=bind[s_['v']]) if 'v' in s_ else s_ for s_ in done],
                         plugins=plugins_of(plug))
             out['cases'] += 1
             try:
                 if step['op'] == 'set_value':
-                    m.set_value('S!A1', step['v'])
+                    m.set_value('S!A1', bind[step['v']])
                 elif step['op'] == 'set_meta':
                     m.extra_data = {'note': 'edited', 'n': [1, 2]}
                 elif step['op'] == 'to_file':
@@ -160,8 +236,10 @@ def protocol_job(arg):
                     deps = [loaded.evaluate(f'S!{c}1') for c in 'BCD']
                     live = m.evaluate('S!A1')
                     live_deps = [m.evaluate(f'S!{c}1') for c in 'BCD']
-                    want_dev = pred['TRUE']['loaded']['c']['A1']
-                    want_ok = pred['FALSE']['loaded']['c']['A1'] if 'FALSE' in pred else None
+                    loaded_obs = [got] + deps
+                    loaded_meta = {k: (loaded.extra_data or {}).get(k) for k in ('note', 'n')}
+                    want_dev = bind[pred['TRUE']['loaded']['c']['A1']]
+                    want_ok = bind[pred['FALSE']['loaded']['c']['A1']] if 'FALSE' in pred else None
                     kind = pred['TRUE']['lastop'][2]
                     # is the file current (saved after the last change)?
                     last_save = max((i for i, s in enumerate(done)
@@ -169,12 +247,12 @@ def protocol_job(arg):
                     last_change = max((i for i, s in enumerate(done)
                                        if s['op'] in ('set_value', 'set_meta')), default=-1)
                     current = last_save > last_change
-                    if got != want_dev and len(out['notes']) < 3:
+                    if not same(got, want_dev) and len(out['notes']) < 3:
                         out['notes'].append(f'spec-drift: from_file returned A1={got!r}, '
                                             f'Persist.tla (code rule) says {want_dev!r} after {done}')
                     if current:
                         if not (same(got, live) and all(same(a, b) for a, b in zip(deps, live_deps))):
-                            if got == want_dev and want_ok == live and want_dev != want_ok:
+                            if same(got, want_dev) and same(want_ok, live) and want_dev != want_ok:
                                 out['stale_seen'] += 1
                                 out['known'].append((
                                     f'from_file({step["ext"]}) after {[s["op"] + str(sorted(s.get("kinds", ""))) for s in done[:-1]]} '
@@ -200,6 +278,34 @@ def protocol_job(arg):
                                 out['violations'].append((
                                     f'extra_data did not survive: {dict(loaded.extra_data or {})!r} vs '
                                     f'{dict(m.extra_data or {})!r}', case))
+                elif step['op'] == 'save_loaded':
+                    # the model the last from_file returned is saved: text file and pickle
+                    out['resaves'] += 1
+                    again = base + '_again'
+                    loaded.to_file(again, file_types=(text_ext, 'pkl'))
+                    src_kind = pred['TRUE']['lastop'][2]
+                    holds = pred['TRUE']['again']
+                    # the text file the live model wrote holds the content loaded: the
+                    # second text file holds it too
+                    if pred['TRUE']['txt']['ex'] and pred['TRUE']['txt'] == holds:
+                        diff = content_diff(base + '.' + text_ext, again + '.' + text_ext)
+                        if diff:
+                            out['violations'].append((
+                                f'the model loaded from the {src_kind if src_kind == "pkl" else text_ext} '
+                                f'file, saved again: the {text_ext} file differs from the first '
+                                f'one in {diff[:2]}', case))
+                    for ext in (text_ext, 'pkl'):
+                        second = ExcelCompiler.from_file(again + '.' + ext, plugins=plugins_of(plug))
+                        obs = [second.evaluate(f'S!{c}1') for c in 'ABCD']
+                        if not all(same(a, b) for a, b in zip(obs, loaded_obs)):
+                            out['violations'].append((
+                                f'the model loaded from the {src_kind if src_kind == "pkl" else text_ext} '
+                                f'file has A1..D1={loaded_obs!r}; saved again and read from the '
+                                f'{ext} file it has {obs!r}', case))
+                        if {k: (second.extra_data or {}).get(k) for k in ('note', 'n')} != loaded_meta:
+                            out['violations'].append((
+                                f'extra_data of the loaded model did not survive its save '
+                                f'({ext}): {dict(second.extra_data or {})!r}', case))
             except Exception as exc:          # noqa
                 out['violations'].append((f'{step} raised {brief(exc)}', case))
                 break
@@ -213,11 +319,40 @@ def protocol_job(arg):
 
 
 # ---------------------------------------------------------------- part B
+def deviant_value(val, ft):
+    """(known finding, the text as the named deviation of file type ft reads it
+    back) or None.  DEV_YamlNel (D57): U+0085 in a yml file -- the pickle is made
+    from one -- is read as a space; DEV_JsonNonBmp (D56): a character beyond
+    U+FFFF in a json file is read as its two surrogates."""
+    if not isinstance(val, str):
+        return None
+    if ft in ('yml', 'pkl') and '\x85' in val:
+        return 'D57', val.replace('\x85', ' ')
+    if ft == 'json' and any(ord(ch) > 0xFFFF for ch in val):
+        return 'D56', ''.join(
+            ch if ord(ch) <= 0xFFFF else
+            chr(0xD800 + ((ord(ch) - 0x10000) >> 10)) + chr(0xDC00 + ((ord(ch) - 0x10000) & 0x3FF))
+            for ch in val)
+    return None
+
+
+KNOWN_TEXT = {'D57': 'U+0085 in a text value becomes a space', 'D56': 'a character beyond U+FFFF '
+              'comes back as two surrogates'}
+
+
+def differing(addrs, want, got):
+    return [(a, w, g) for a, w, g in zip(addrs, want, got)
+            if w[0] != g[0] or (w[0] == 'ok' and not (
+                same(w[1], g[1]) or (isinstance(w[1], tuple) and w[1] == g[1])))]
+
+
 def fidelity_job(arg):
-    ft, cycles, seed, plug = arg
+    ft, cycles, seed, plug, n_numbers = arg
     from pycel import ExcelCompiler
     out = dict(part='fidelity/plugin' if plug else 'fidelity', ext=ft, cycles=bool(cycles), tlc=[],
-               violations=[], known=[], notes=[], cases=0, sample=None)
+               violations=[], known=[], notes=[], cases=0, resaves=0, sample=None)
+    pool = POOL + number_family(
+        random.Random(seed * 131 + sum(map(ord, ft)) + 2 * bool(cycles) + bool(plug)), n_numbers)
     workdir = tlc.new_scratch('fid')
     cells = {'A1': 5, 'A2': 'k', 'B1': '=A1&"|"', 'C1': '=A1', 'D1': '=IF(ISNUMBER(A1),A1*2,"t")',
              'E1': '=LEN(A2&A1)', 'F1': '=SUM(A1:A2)'}
@@ -228,30 +363,41 @@ def fidelity_job(arg):
                  for a, c in cells.items()}
         cells['G1'] = '=COUNT(B1:F1)&"/"&SUM(C1:D1)'
         addrs += ['S!G1', 'S!B1:F1']
-    for i, val in enumerate(POOL):
+
+    def observe(model):
+        res = []
+        for a in addrs:
+            try:
+                res.append(('ok', model.evaluate(a)))
+            except Exception as exc:      # noqa
+                res.append(('exc', type(exc).__name__))
+        return res
+
+    for i, val in enumerate(pool):
         out['cases'] += 1
         m = xl.compile_wb(cells, cycles=cycles, plugins=plugins_of(plug))
         case = dict(file_type=ft, cycles=bool(cycles), value=repr(val), cells=cells,
                     plugins=plugins_of(plug))
+        # user extra_data holding the number (texts in extra_data are not exercised)
+        extra = {'num': val, 'nums': [val, 0.5]} if is_number(val) else {'num': 1}
+        m.extra_data = dict(extra)
         try:
             for a in addrs:
                 m.evaluate(a)
+            # what the model returns with the value as a named deviation of a file
+            # type reads it back (the predictor of the known findings D56, D57)
+            deviant = {}
+            for ft2 in ('yml', 'json', 'pkl'):
+                dev = deviant_value(val, ft2)
+                if dev:
+                    m.set_value('S!A1', dev[1])
+                    deviant[ft2] = (dev[0], observe(m))
             m.set_value('S!A1', val)
-            want = []
-            for a in addrs:
-                try:
-                    want.append(('ok', m.evaluate(a)))
-                except Exception as exc:      # noqa
-                    want.append(('exc', type(exc).__name__))
+            want = observe(m)
             base = os.path.join(workdir, f'v{i}_model')
             m.to_file(base, file_types=(ft,))
             loaded = ExcelCompiler.from_file(base + '.' + ft, plugins=plugins_of(plug))
-            got = []
-            for a in addrs:
-                try:
-                    got.append(('ok', loaded.evaluate(a)))
-                except Exception as exc:      # noqa
-                    got.append(('exc', type(exc).__name__))
+            got = observe(loaded)
         except Exception as exc:              # noqa
             if isinstance(val, str) and val.startswith('='):
                 out['known'].append(('D10', f'text {val!r} written with set_value is code after '
@@ -259,30 +405,69 @@ def fidelity_job(arg):
             else:
                 out['violations'].append((f'value {val!r}, {ft}: {brief(exc)}', case))
             continue
-        bad = [(a, w, g) for a, w, g in zip(addrs, want, got)
-               if w[0] != g[0] or (w[0] == 'ok' and not (
-                   same(w[1], g[1]) or (isinstance(w[1], tuple) and w[1] == g[1])))]
+        bad = differing(addrs, want, got)
         if bad:
-            if isinstance(val, str) and '\x85' in val and ft in ('yml', 'pkl') and all(
-                    w[0] == g[0] == 'ok' and isinstance(w[1], (str, tuple)) and
-                    json.dumps(w[1]).replace('\\u0085', ' ') == json.dumps(g[1]) for _, w, g in bad):
-                out['known'].append(('D57', f'U+0085 in a text value becomes a space after '
-                                     f'{ft} reload: {bad[0]}', case))
-            elif isinstance(val, str) and any(ord(ch) > 0xFFFF for ch in val) and ft == 'json' \
-                    and all(w[0] == g[0] == 'ok' for _, w, g in bad):
-                out['known'].append(('D56', f'a character beyond U+FFFF comes back as two '
-                                     f'surrogates after json reload: {bad[0]}', case))
+            # (a model which came back different is not saved again: what it would
+            # write is the consequence of the same deviation)
+            if ft in deviant and not differing(addrs, deviant[ft][1], got):
+                out['known'].append((deviant[ft][0], f'{KNOWN_TEXT[deviant[ft][0]]} after {ft} '
+                                     f'reload: {bad[0]}', case))
             elif isinstance(val, str) and val.startswith('='):
                 out['known'].append(('D10', f'text {val!r} written with set_value is code after '
                                      f'reload ({ft}): {bad[0]}', case))      # DEV_TextLooksLikeFormula
             else:
                 out['violations'].append((
                     f'value {val!r} saved to {ft}: loaded model differs {bad[:2]}', case))
+        else:
+            if canon({k: loaded.extra_data.get(k) for k in extra}) != canon(extra):
+                out['violations'].append((
+                    f'extra_data {extra!r} did not survive {ft}: {dict(loaded.extra_data)!r}', case))
+            # ResaveReproduces: the loaded model saved to every file type
+            for ft2 in ('yml', 'json', 'pkl'):
+                out['resaves'] += 1
+                case2 = dict(case, history=[dict(op='from_file', ext=ft), dict(op='save_loaded', ext=ft2),
+                                            dict(op='from_file', ext=ft2)])
+                try:
+                    again = f'{base}_{ft2}_again'
+                    loaded.to_file(again, file_types=(ft2,))
+                    if ft2 == ft != 'pkl':
+                        diff = content_diff(base + '.' + ft, again + '.' + ft)
+                        if diff:
+                            out['violations'].append((
+                                f'value {val!r}: the model loaded from the {ft} file, saved again, '
+                                f'writes a {ft} file which differs from the first one in {diff[:3]}',
+                                case2))
+                            continue
+                    second = ExcelCompiler.from_file(again + '.' + ft2, plugins=plugins_of(plug))
+                    got2 = observe(second)
+                    extra2 = {k: second.extra_data.get(k) for k in extra}
+                except Exception as exc:          # noqa
+                    out['violations'].append((
+                        f'value {val!r}: saving the model loaded from {ft} to {ft2} and loading '
+                        f'that: {brief(exc)}', case2))
+                    continue
+                bad2 = differing(addrs, want, got2)
+                if bad2 and ft2 in deviant and not differing(addrs, deviant[ft2][1], got2):
+                    out['known'].append((deviant[ft2][0], f'{KNOWN_TEXT[deviant[ft2][0]]} after the '
+                                         f'model loaded from {ft} is saved to {ft2} and that is '
+                                         f'loaded: {bad2[0]}', case2))
+                elif bad2 or canon(extra2) != canon(extra) or bool(second.cycles) != bool(cycles):
+                    out['violations'].append((
+                        f'value {val!r}: the model loaded from the {ft} file, saved to {ft2} and '
+                        f'loaded again differs: {bad2[:2] or extra2!r}', case2))
         if len(out['violations']) > 5:
             break
     out['violations'] = out['violations'][:5]
-    out['sample'] = dict(pool_size=len(POOL), first_values=[repr(x) for x in POOL[:8]])
-    out['known'] = out['known'][:6]
+    out['sample'] = dict(pool_size=len(pool), first_values=[repr(x) for x in POOL[:8]],
+                         numbers=[repr(x) for x in pool[len(POOL):len(POOL) + 24]])
+    # one case of every known finding and kind of trip
+    seen, keep = set(), []
+    for k in out['known']:
+        key = (k[0], 'is saved to' in k[1])
+        if key not in seen:
+            seen.add(key)
+            keep.append(k)
+    out['known'] = (keep + [k for k in out['known'] if k not in keep])[:8]
     return out
 
 
@@ -678,13 +863,16 @@ def run(tier, seed):
     v = Verdict(PID, tier, seed)
     cy = dict(iterations=50, tolerance=0.001)
     ml = 1500 if tier == 'quick' else 10 ** 9
+    nn = 51 if tier == 'quick' else 340        # floats of the number family per fidelity job
     # every third history on a model compiled (and loaded) with a plugin module
-    jobs = [('protocol', ('yml', None, seed, ml, 3)), ('protocol', ('json', cy, seed, ml, 3))]
+    shards = 2 if tier == 'quick' else 4
+    jobs = [('protocol', (ext, cyc, seed, ml, 3, (i, shards)))
+            for i in range(shards) for ext, cyc in (('yml', None), ('json', cy))]
     for ft in ('yml', 'json', 'pkl'):
-        jobs.append(('fidelity', (ft, None, seed, False)))
-    jobs.append(('fidelity', ('yml', cy, seed, False)))
-    jobs.append(('fidelity', ('pkl', None, seed, True)))
-    jobs.append(('fidelity', ('json', cy, seed, True)))
+        jobs.append(('fidelity', (ft, None, seed, False, nn)))
+    jobs.append(('fidelity', ('yml', cy, seed, False, nn)))
+    jobs.append(('fidelity', ('pkl', None, seed, True, nn)))
+    jobs.append(('fidelity', ('json', cy, seed, True, nn)))
     # long texts: the sweep and 300 random texts per file type; thorough: more models
     for i in range(1 if tier == 'quick' else 4):
         for ft in ('yml', 'json', 'pkl'):
@@ -732,14 +920,18 @@ def run(tier, seed):
             v.transitions += t['generated']
         v.evaluations += r['cases']
         key = (r['part'], r['ext'], r['cycles'])
-        v.distinct.update((key, i) for i in range(r['cases']))
+        # (jobs of one kind -- shards, repetitions -- hold different inputs)
+        v.distinct.update((key, parts.get(str(key), 0) + i) for i in range(r['cases']))
         parts[str(key)] = parts.get(str(key), 0) + r['cases']
+        v.extra['loaded_models_saved'] = v.extra.get('loaded_models_saved', 0) + r.get('resaves', 0)
         if r['part'].split('/')[0] in ('protocol', 'reload'):
             v.traces += r['histories']
             v.extra['protocol_loads'] = v.extra.get('protocol_loads', 0) + r.get('loads', 0)
             v.extra['protocol_plugin_histories'] = v.extra.get('protocol_plugin_histories', 0) + \
                 r.get('plugin_histories', 0)
             v.extra['stale_pickle_reads_seen'] = v.extra.get('stale_pickle_reads_seen', 0) + r.get('stale_seen', 0)
+            v.extra['protocol_number_histories'] = v.extra.get('protocol_number_histories', 0) + \
+                r.get('bound_histories', 0)
         else:
             v.traces += r['cases']
         for n in r['notes']:
@@ -755,7 +947,10 @@ def run(tier, seed):
         v.note('known finding D9 (stale pickle) was not observed in this run')
     v.extra.update(cases_by_part=parts, exhaustive=False,
                    rule='protocol: every maximal history (depth <= 5) of Persist.tla on real '
-                        'files; fidelity: one case per pool value and file type; texts: one case '
+                        'files (quick: 1500 of them per text format), the atoms of Vals bound to '
+                        'the numbers 1, 2 or to two numbers of the number family; fidelity: one '
+                        'case per value of the pool and of the number family and file type, the '
+                        'loaded model saved again to yml, json and pkl; texts: one case '
                         'per text constant / text literal of the sweep (a run of 1..3 spaces at '
                         'every offset of texts of three lengths) and of the random texts (1..400 '
                         'characters); lockstep: one case per random post-load history on a random '
